@@ -4,7 +4,7 @@
 (* integer grid (durations <= 3, <= 5 annotators).                          *)
 (* An alignment is a sequence of unitary alignments; a unitary alignment a  *)
 (* sequence of slots; a slot is <<start, end, label>> or <<>> (empty unit). *)
-(* A = [alpha, de, cattype, M]:  alpha, de integers; categorical values are *)
+(* A = [alpha, ad, de, cattype, M]:  alpha/ad the positional weight, de integer; categorical values are *)
 (* in quarters (x4): "abs" 0 or 4*de, "pre" M[l1][l2]*de.                   *)
 (* Weights are in units of 1/WS:  1/(k-1) * max(0, 1 - alpha*pos).          *)
 (***************************************************************************)
@@ -28,18 +28,19 @@ PairsOf(t) == {p \in (1..Len(t)) \X (1..Len(t)) : p[1] < p[2]}
 Counts(t, p, cat) == cat = 0 \/ (IsReal(t[p[1]]) /\ t[p[1]][3] = cat) \/ (IsReal(t[p[2]]) /\ t[p[2]][3] = cat)
 RealPair(t, p) == IsReal(t[p[1]]) /\ IsReal(t[p[2]])
 HalfPair(t, p) == IsReal(t[p[1]]) # IsReal(t[p[2]])
-Conf(A, u, v) == Max2(0, PS - A.alpha * PosS(u, v, A.de))                 \* max(0, 1 - alpha*pos) * PS
+\* alpha = A.alpha / A.ad (ad = 1 for whole alphas): everything below carries the extra factor A.ad
+Conf(A, u, v) == Max2(0, A.ad * PS - A.alpha * PosS(u, v, A.de))          \* max(0, 1 - alpha*pos) * PS * ad
 PairW(A, t, p) == WBase(t) * Conf(A, t[p[1]], t[p[2]])                    \* weight * WS
 \* numerator (x 4*WS) and denominator (x WS) of the weighted mean
 TupleNum(A, t, cat) == FoldSet(LAMBDA p, acc : acc +
         (IF ~Counts(t, p, cat) THEN 0
          ELSE IF RealPair(t, p) THEN Cat4(A, t[p[1]], t[p[2]]) * PairW(A, t, p)
-         ELSE IF HalfPair(t, p) THEN 4 * A.de * A.de * WS                 \* unit/empty pair: delta_empty at weight delta_empty
+         ELSE IF HalfPair(t, p) THEN 4 * A.de * A.de * WS * A.ad          \* unit/empty pair: delta_empty at weight delta_empty
          ELSE 0), 0, PairsOf(t))
 TupleDen(A, t, cat) == FoldSet(LAMBDA p, acc : acc +
         (IF ~Counts(t, p, cat) THEN 0
          ELSE IF RealPair(t, p) THEN PairW(A, t, p)
-         ELSE IF HalfPair(t, p) THEN A.de * WS
+         ELSE IF HalfPair(t, p) THEN A.de * WS * A.ad
          ELSE 0), 0, PairsOf(t))
 Num(A, al, cat) == FoldSet(LAMBDA k, acc : acc + TupleNum(A, al[k], cat), 0, 1..Len(al))
 Den(A, al, cat) == FoldSet(LAMBDA k, acc : acc + TupleDen(A, al[k], cat), 0, 1..Len(al))
